@@ -30,6 +30,12 @@ def scenario(rng, again=None):
                 dict(at=round(t_drop + 4.0, 3), log='L2', seg=False, react='ok')]
         return dict(msgs=msgs, hook='none', stalls=0, drops=0, drop_at=[t_drop], refuse=[1], seed=rng.randrange(10 ** 9),
                     put_hook=False, order=rng.choice((1, 7)))
+    if rng.random() < 0.08:
+        # an undisturbed session in which the SMSC refuses messages: every other error response comes without a body
+        # (sequence numbers 2, 3, 4, ... in the order queued)
+        msgs = [dict(at=round(0.5 + 0.3 * i, 3), log='L%d' % (i + 1), seg=False, react=rng.choice(('reject', 'throttle', 'reject', 'ok')))
+                for i in range(rng.randrange(2, 6))]
+        return dict(msgs=msgs, hook='none', stalls=0, drops=0, seed=rng.randrange(10 ** 9), put_hook=False, order=rng.choice((1, 7)))
     if rng.random() < 0.1:
         # the application queues a message right after the link went down, while the ESME is still winding the session down
         # (the Sender is waiting on the broker then): it must be sent on the next connection or handed to send_error
@@ -162,7 +168,7 @@ def run(sc):
                 st = {'reject': 8, 'throttle': 0x58}.get(r, 0)
                 s.smsc.msgid += 1
                 mid = 'id%d' % s.smsc.msgid
-                body = (mid.encode() + b'\x00') if st == 0 else b'\x00'
+                body = (mid.encode() + b'\x00') if st == 0 else (b'\x00' if seq % 2 else b'')     # error: body may be omitted
                 s.smsc.later(delay, conn.feed, pdu(0x80000004, st, seq, body))
                 if st == 0 and sc.get('receipts'):
                     plan = rcpt_of_log.get(sc.get('_seq_log', {}).get(seq), 'none')
@@ -434,6 +440,16 @@ def predicate14(sc, ev):
         if n_to and len(outs) > allowed:
             return 'message %s was reported as timed out although it has another outcome: %s' % (log, outs)
     seq_log = dict(sc.get('_seq_log', {}))
+    # a request the SMSC answered at once (accepted, rejected, throttled, nacked - whatever the answer looks like on the wire,
+    # with or without a body) is not reported as timed out: the answer was fed to an undisturbed session long before the
+    # time-to-live
+    if not sc.get('drops') and not sc.get('stalls') and not sc.get('drop_at') and sc.get('hook') == 'none' \
+            and not sc.get('put_hook') and not sc.get('again'):
+        for m in sc['msgs']:
+            if m['react'] not in ('ok', 'reject', 'throttle', 'nack') or m['seg']:
+                continue
+            if 'TimeoutError' in per.get(m['log'], []):
+                return 'message %s, which the SMSC answered at once (%s), was reported as timed out' % (m['log'], m['react'])
     if not sc.get('drops') and not sc.get('stalls'):
         for m in sc['msgs']:
             if m['react'] != 'silent' or m['seg']:
